@@ -29,8 +29,8 @@ RULE = ("case = batch of 6 designs (generated translatable DesignSpecs, paramete
         "probes of known findings) x both backends x 3 fresh interpreters with different PYTHONHASHSEED and seeded "
         "object-hash streams; non-trivial = >=4 designs accepted by a backend and >=2 module definitions shared by "
         "several instances; distinct = case digest")
-TIERS = {"quick": {"runs": 48, "budget_s": 110, "chunk": 1},
-         "thorough": {"runs": 4000, "budget_s": 1800, "chunk": 2}}
+TIERS = {"quick": {"runs": 64, "budget_s": 110, "chunk": 1},
+         "thorough": {"runs": 6000, "budget_s": 1800, "chunk": 2}}
 REAL = ["RTLIRTranslator.translate_component (first text wins per module name)", "get_component_unique_name / full_name",
         "rtlir utility get_ordered_upblks", "structural translators (port / wire / instance ordering)",
         "Verilog and Yosys translation passes"]
